@@ -339,6 +339,9 @@ macro_rules! args_fn {
                 ARGS[N].runner(
                     || {
                         log_line(format!("args_eval {}", reg().args_bid[N]));
+                        if let Ok(ms) = std::env::var("VERIF_ARGS_SLEEP_MS") {
+                            std::thread::sleep(std::time::Duration::from_millis(ms.parse().unwrap_or(0)));
+                        }
                         let list = match &reg().args_list[N] {
                             ArgList::$variant(v) => v.clone(),
                             _ => unreachable!(),
@@ -349,7 +352,9 @@ macro_rules! args_fn {
                     |a: &$item| ($render)(a),
                     |bencher: Bencher, a: &$item| {
                         let rendered: String = ($render)(a);
-                        run_body(reg().args_bid[N], &format!("{} - -", hex(&rendered)), bencher);
+                        // an empty rendering is an argument too ("=" in the log; "-" stands for "no argument")
+                        let shown = if rendered.is_empty() { "=".to_owned() } else { hex(&rendered) };
+                        run_body(reg().args_bid[N], &format!("{shown} - -"), bencher);
                     },
                 )
             })
@@ -456,6 +461,9 @@ fn main() {
     let mut use_args = true;
     let mut clock_cfg: Option<(u64, u64, u64, u64)> = None;
     let mut clock_os = false;
+    // > 0: the entries are pushed into divan's registries from that many threads at once (as constructors of libraries
+    // loaded in parallel would do), not one after the other
+    let mut par_reg: usize = 0;
 
     for line in text.lines() {
         let f: Vec<String> = line.split_whitespace().map(|s| s.to_owned()).collect();
@@ -470,6 +478,7 @@ fn main() {
             "b" => builder_ops.push(f[1..].to_vec()),
             "run" => run_mode = f[1].clone(),
             "args" => use_args = f[1] == "1",
+            "parreg" => par_reg = f[1].parse().unwrap(),
             "G" | "P" | "A" | "X" => pending.push(Pending { kind: f[0].chars().next().unwrap(), f: f[1..].to_vec() }),
             other => panic!("unknown spec line {other}"),
         }
@@ -550,16 +559,29 @@ fn main() {
     REG.set(registry).ok().expect("set registry");
 
     // Second pass: create the entries and push them into divan's registries, in spec order.
+    enum Node {
+        B(&'static EntryList<BenchEntry>),
+        G(&'static EntryList<GroupEntry>),
+    }
+    impl Node {
+        fn push(self) {
+            match self {
+                Node::B(n) => BENCH_ENTRIES.push(n),
+                Node::G(n) => GROUP_ENTRIES.push(n),
+            }
+        }
+    }
+    let mut nodes: Vec<Node> = Vec::new();
     for (b, p) in built.iter().zip(&pending) {
         match b.kind {
             'G' => {
                 let g: &'static GroupEntry = Box::leak(Box::new(GroupEntry { meta: meta(&b.f, b.opt_slot), generic_benches: None }));
-                GROUP_ENTRIES.push(Box::leak(Box::new(EntryList::new(g))));
+                nodes.push(Node::G(Box::leak(Box::new(EntryList::new(g)))));
             }
             'P' => {
                 let e: &'static BenchEntry =
                     Box::leak(Box::new(BenchEntry { meta: meta(&b.f, b.opt_slot), bench: BenchEntryRunner::Plain(PLAIN_FNS[b.slot]) }));
-                BENCH_ENTRIES.push(Box::leak(Box::new(EntryList::new(e))));
+                nodes.push(Node::B(Box::leak(Box::new(EntryList::new(e)))));
             }
             'A' => {
                 let ty = &p.f[9];
@@ -575,7 +597,7 @@ fn main() {
                     other => panic!("arg type {other}"),
                 };
                 let e: &'static BenchEntry = Box::leak(Box::new(BenchEntry { meta: meta(&b.f, b.opt_slot), bench: runner }));
-                BENCH_ENTRIES.push(Box::leak(Box::new(EntryList::new(e))));
+                nodes.push(Node::B(Box::leak(Box::new(EntryList::new(e)))));
             }
             'X' => {
                 let rest = &p.f[7..];
@@ -605,10 +627,37 @@ fn main() {
                 }
                 let outer: &'static [&'static [GenericBenchEntry]] = Box::leak(outer.into_boxed_slice());
                 unsafe { (*gptr).generic_benches = Some(outer) };
-                GROUP_ENTRIES.push(Box::leak(Box::new(EntryList::new(gref))));
+                nodes.push(Node::G(Box::leak(Box::new(EntryList::new(gref)))));
             }
             _ => unreachable!(),
         }
+    }
+    if par_reg == 0 {
+        for n in nodes {
+            n.push();
+        }
+    } else {
+        // every thread takes its share, all wait at a spin barrier, then push at the same moment
+        let threads = par_reg.min(nodes.len()).max(1);
+        let mut shares: Vec<Vec<Node>> = (0..threads).map(|_| Vec::new()).collect();
+        for (i, n) in nodes.into_iter().enumerate() {
+            shares[i % threads].push(n);
+        }
+        let ready = std::sync::atomic::AtomicUsize::new(0);
+        std::thread::scope(|sc| {
+            for share in shares {
+                let ready = &ready;
+                sc.spawn(move || {
+                    ready.fetch_add(1, SeqCst);
+                    while ready.load(SeqCst) < threads {
+                        std::hint::spin_loop();
+                    }
+                    for n in share {
+                        n.push();
+                    }
+                });
+            }
+        });
     }
 
     if let Some((freq, delta, q, base)) = clock_cfg {
@@ -655,6 +704,29 @@ fn main() {
         "bench" => d.run_benches(),
         "test" => d.test_benches(),
         "list" => d.list_benches(),
+        // several threads use the runner at the same time (all entry points take &self): whatever is evaluated lazily is
+        // still evaluated once per process
+        "partest" => {
+            let n = 4;
+            let ready = std::sync::atomic::AtomicUsize::new(0);
+            let dref = &d;
+            std::thread::scope(|sc| {
+                for k in 0..n {
+                    let ready = &ready;
+                    sc.spawn(move || {
+                        ready.fetch_add(1, SeqCst);
+                        while ready.load(SeqCst) < n {
+                            std::hint::spin_loop();
+                        }
+                        if k % 2 == 0 {
+                            dref.test_benches()
+                        } else {
+                            dref.list_benches()
+                        }
+                    });
+                }
+            });
+        }
         other => panic!("unknown run mode {other}"),
     }));
     use std::io::Write;
